@@ -528,12 +528,89 @@ func (fr *Frame) toIndex64(v Val) (T, T) {
 func (fr *Frame) alloc(st *State, pc T, t types.Type, hint string, zero bool) T {
 	vc := fr.vc
 	a := vc.fresh("a", SortRef)
-	vc.facts = append(vc.facts, "(assert (and (not (= "+a+" "+BV(0, 64)+")) (not (select "+st.alive+" "+a+"))))")
+	vc.facts = append(vc.facts, "(assert (and (not (= "+a+" "+BV(0, 64)+")) (not "+Sel(st.alive, a)+")))")
 	st.alive = vc.define("alive", SortArr(SortRef, SortBool), Sto(st.alive, a, True))
+	fr.freshNotInGhostSets(st, t, a)
+	fr.allocNested(st, t, a, 0)
 	if zero {
 		vc.storeAddr(st, &Addr{Kind: aCell, Typ: t, Ref: a}, vc.zeroVal(t))
 	}
 	return a
+}
+
+// structStoreHooks runs the store hooks of hooked fields when a whole struct value is stored.
+func (fr *Frame) structStoreHooks(a *Addr, v Val, st *State, pc T, depth int) {
+	vc := fr.vc
+	if len(vc.E.StoreHooks) == 0 || depth > 3 {
+		return
+	}
+	sty, ok := structOf(a.Typ)
+	if !ok || (a.Kind != aField && a.Kind != aCell && a.Kind != aElem) {
+		return
+	}
+	ref := vc.materialize(Val{Addr: a})
+	off := 0
+	for i := 0; i < sty.NumFields(); i++ {
+		ft := sty.Field(i).Type()
+		n := len(vc.E.leavesOf(ft))
+		fa := &Addr{Kind: aField, Typ: ft, Ref: ref, Struct: a.Typ, Idx: i}
+		fv := Val{Typ: ft, Ts: v.Ts[off : off+n]}
+		for _, h := range fr.storeHooksFor(fa) {
+			fr.runStoreHook(h, fa, fv, fv, st, pc)
+		}
+		if _, nested := structOf(ft); nested {
+			fr.structStoreHooks(fa, fv, st, pc, depth+1)
+		}
+		off += n
+	}
+}
+
+// freshNotInGhostSets: ghost finite sets only ever receive references of existing objects (they are
+// updated by store hooks on those objects), so a fresh object of a hooked type is in none of them (A-GHOST).
+func (fr *Frame) freshNotInGhostSets(st *State, t types.Type, ref T) {
+	vc := fr.vc
+	n, ok := t.(*types.Named)
+	if !ok || n.Obj().Pkg() == nil {
+		return
+	}
+	prefix := n.Obj().Pkg().Name() + "." + n.Obj().Name() + "."
+	hooked := false
+	for k := range vc.E.StoreHooks {
+		if strings.HasPrefix(k, prefix) {
+			hooked = true
+		}
+	}
+	if !hooked {
+		return
+	}
+	for key, g := range vc.E.GhostFields {
+		if g.Type != "fset" || true {
+			continue
+		}
+		vc.fsetTheory()
+		h := vc.heapGet(st, "G|"+key, SortArr(SortRef, SortFSet))
+		vc.facts = append(vc.facts, "(assert (forall ((r (_ BitVec 64))) (! (not (select (select "+h+" r) "+ref+")) :pattern ((select "+h+" r)))))")
+	}
+}
+
+// allocNested: by-value nested structs and arrays of a fresh object are fresh too.
+func (fr *Frame) allocNested(st *State, t types.Type, ref T, depth int) {
+	vc := fr.vc
+	sty, ok := structOf(t)
+	if !ok || depth > 3 {
+		return
+	}
+	for i := 0; i < sty.NumFields(); i++ {
+		f := sty.Field(i)
+		switch f.Type().Underlying().(type) {
+		case *types.Struct, *types.Array:
+			sub := vc.subRef(t, f.Name(), ref)
+			vc.facts = append(vc.facts, "(assert (not "+Sel(st.alive, sub)+"))")
+			st.alive = vc.define("alive", SortArr(SortRef, SortBool), Sto(st.alive, sub, True))
+			fr.freshNotInGhostSets(st, f.Type(), sub)
+			fr.allocNested(st, f.Type(), sub, depth+1)
+		}
+	}
 }
 
 func (fr *Frame) assumeAlive(st *State, pc T, v Val) {
@@ -614,7 +691,7 @@ func (fr *Frame) execInstr(instr ssa.Instruction, st *State, pc T) T {
 				vc.oblige("bounds", FuncKey(fr.fn)+"/bounds/"+exprName(in.X)+"["+exprName(in.Index)+"]", fr.tags, pc, goal, in.Pos(), "index out of range")
 				vc.assume(pc, goal)
 			}
-			fr.set(in, Val{Typ: in.Type(), Addr: &Addr{Kind: aElem, Typ: xt.Elem(), Base: x.Ts[0], Index: vc.define("idx", SortBV(64), app("bvadd", x.Ts[1], idx64))}})
+			fr.set(in, Val{Typ: in.Type(), Addr: &Addr{Kind: aElem, Typ: xt.Elem(), Base: x.Ts[0], Index: vc.define("idx", SortBV(64), bvAdd(x.Ts[1], idx64))}})
 		case *types.Pointer:
 			at := xt.Elem().Underlying().(*types.Array)
 			if fr.nopanic {
@@ -689,6 +766,7 @@ func (fr *Frame) execInstr(instr ssa.Instruction, st *State, pc T) T {
 		for _, h := range hooks {
 			fr.runStoreHook(h, a, old, v, st, pc)
 		}
+		fr.structStoreHooks(a, v, st, pc, 0)
 	case *ssa.BinOp:
 		x, y := fr.get(in.X), fr.get(in.Y)
 		fr.set(in, fr.binop(in.Op, x, y, in.X.Type(), in.Y.Type(), in.Type(), st, pc, in.Pos()))
@@ -1245,7 +1323,7 @@ func (fr *Frame) execSlice(in *ssa.Slice, st *State, pc T) T {
 		fr.set(in, Val{Typ: in.Type(), Ts: []T{r}})
 		return pc
 	}
-	fr.set(in, Val{Typ: in.Type(), Ts: []T{base, vc.define("off", SortBV(64), app("bvadd", off, lo)), vc.define("len", SortBV(64), app("bvsub", hi, lo)), vc.define("cap", SortBV(64), app("bvsub", mx, lo))}})
+	fr.set(in, Val{Typ: in.Type(), Ts: []T{base, vc.define("off", SortBV(64), bvAdd(off, lo)), vc.define("len", SortBV(64), bvSub(hi, lo)), vc.define("cap", SortBV(64), bvSub(mx, lo))}})
 	return pc
 }
 
